@@ -225,3 +225,60 @@ def check(cx):
     from . import c15
     cx.include(c15, {"C15.8"}, "C07.9", "shared with C15.8: the logged inverse of a NOT NULL change restores the recorded previous state; recovery "
                "that undoes a redundant SET NOT NULL must not drop the constraint (NULLs would then be accepted and committed)", floor=4)
+
+    # ---- C07.10 (construct shared with C15.10) ---------------------------------------------------------------------------
+    cx.include(c15, {"C15.10"}, "C07.10", "shared with C15.10: the index registrations a CREATE TABLE makes for its UNIQUE constraints must survive the "
+               "later steps of the same statement; a stale catalog row written back by the PRIMARY KEY step erases them and the "
+               "constraint is never consulted again", floor=2)
+
+    # ---- C07.11 every unique index is probed, or skipped only by a disjointness test ---------------------------------------
+    r11 = cx.rule("C07.11", "MPT: in validate_unique_constraints every trip round the loop over the table's indexes reaches search_index; an index "
+                  "may be skipped only on a test of the form `no key column is touched` (Iterator::any / is_disjoint over the key columns): "
+                  "a filter of another form (e.g. `all key columns are assigned`) lets a partial-key UPDATE create a duplicate", floor=1)
+    fu = p.fns.get(checks.get("validate_unique_constraints", ""))
+    if fu and si:
+        from axvlib.core import natural_loops as _nl7
+        probes = [c for c in fu.calls() if c.callee == si.id]
+        lps = [(h, body) for h, body in _nl7(fu) if any(c.bb in body for c in probes)]
+        if not probes or not lps:
+            cx.bad(r11, "probe-loop", fu.where(), "validate_unique_constraints does not probe the indexes in a loop")
+        else:
+            h, body = max(lps, key=lambda x: len(x[1]))
+            kill = {c.bb for c in probes}
+            nxt = [c for c in fu.calls() if c.bb == h and c.defn == "std::iter::Iterator::next"]
+            some = None
+            for bi, adt, m, oth, src in enum_switches(p, fu):
+                if nxt and bi == nxt[0].term["to"] and adt == "std::option::Option":
+                    some = m.get("Some", oth)
+            skip_path = False
+            deciders = set()
+            if some is not None:
+                seen_b, work = set(), [some]
+                while work:
+                    u = work.pop()
+                    if u in seen_b or u in kill or u not in body or fu.blocks[u]["cleanup"]:
+                        continue
+                    seen_b.add(u)
+                    for v in fu.succ(u):
+                        if v == h:
+                            skip_path = True
+                        else:
+                            work.append(v)
+                if skip_path:
+                    # which calls feed the branches that can leave the iteration without probing
+                    for u in seen_b:
+                        t = fu.blocks[u]["term"]
+                        if t["t"] == "switch" and op_local(t["o"]) is not None:
+                            cl = fu.dep_closure(op_local(t["o"])) | {op_local(t["o"])}
+                            for c in fu.calls():
+                                if c.dst and c.dst[0] in cl and c.bb in body:
+                                    deciders.add(c.defn.rsplit("::", 1)[-1])
+            sound = {"any", "is_disjoint", "intersection", "is_empty", "next", "is_some", "is_none", "branch",
+                     # accessors that only hand the key columns / the assigned set to the test
+                     "iter", "indexed_column_ids", "into_iter", "deref", "as_ref", "as_deref", "contains", "get", "map", "copied",
+                     "cloned", "clone", "len", "keys", "id"}
+            bad_dec = sorted(d for d in deciders if d not in sound)
+            cx.verdict((not skip_path) or (("any" in deciders or "is_disjoint" in deciders) and not bad_dec), r11, "every-index-probed", fu.where(),
+                       "every index is probed" if not skip_path else "an index is skipped only when none of its key columns is touched",
+                       "validate_unique_constraints can finish an index without probing it, decided by %s: an UPDATE that assigns only part of a "
+                       "composite key is not checked against the rows that already hold the resulting key" % (bad_dec or sorted(deciders)))
